@@ -80,3 +80,12 @@ add("C06", "request-sequence monitor: all columns fingerprinted after every "
     "values, six kinds of invalid request, through apply_preprocessing and "
     "fit_model).",
     "Rejected = the call raises; fresh object from the same raw data.")
+add("C10", "twin-execution monitor (one object edited in place vs fresh deep "
+    "copies) plus entry/exit fingerprints of every mutable argument at the "
+    "API boundary",
+    "Held on the scenarios observed: 15 argument kinds x in-place edits x "
+    "gcf_k x range types; ~9000 argument fingerprint comparisons and ~1500 "
+    "twin state comparisons per quick run.",
+    "Observable state compared by value; bitwise first, numerically "
+    "equivalent (1e-6, identical hash) tolerated and counted because lmfit "
+    "results are not bit-reproducible in ill-conditioned cases.")
